@@ -910,7 +910,10 @@ def oracle_graphs(ctx: Ctx) -> None:
         ring: list = ["head"]
         ring.append(ring)
         shared = ["s"]
-        return {"tree": root, "ring": ring, "twice": [shared, shared, {"again": shared}]}
+        settings, meta = {"mode": "fast"}, {"who": "me"}
+        # (keys NOT in alphabetical order, one sub-object reachable from several places: reference numbering follows the traversal)
+        table = {"settings": settings, "meta": meta, "rows": [{"id": 1, "settings": settings}, {"id": 2, "settings": settings}], "again": meta}
+        return {"tree": root, "ring": ring, "twice": [shared, shared, {"again": shared}], "table": table}
 
     def shape(name: str, v: Any) -> str:
         try:
@@ -919,6 +922,9 @@ def oracle_graphs(ctx: Ctx) -> None:
                 return f"{type(v).__name__}:{v.name}/{k.name}/{k.children[0].name} parent-is-root={k.parent is v} grandparent={k.children[0].parent.parent is v}"
             if name == "ring":
                 return f"len={len(v)} head={v[0]!r} self={v[1] is v}"
+            if name == "table":
+                return (f"keys={sorted(v)} settings={v['settings']} meta={v['meta']} rows={[(r['id'], r['settings']) for r in v['rows']]} again={v['again']} "
+                        f"shared={v['rows'][0]['settings'] is v['settings'] and v['again'] is v['meta']}")
             return f"same={v[0] is v[1] and v[2]['again'] is v[0]} content={v[0]!r}"
         except BaseException as e:  # noqa: BLE001
             return f"broken ({type(e).__name__}: {str(e)[:60]}) {str(type(v))}"
